@@ -321,6 +321,93 @@ pub struct RunSummary {
     pub exit: i32,
 }
 
+/// Avoidance constraints of the open findings that still reproduce (same rule as `run_check`).
+pub fn active_avoid() -> Vec<String> {
+    let findings = load_findings();
+    let mut avoid: BTreeSet<String> = BTreeSet::new();
+    for f in findings.findings.iter().filter(|f| f.status == "open") {
+        let reproduces = match &f.replay {
+            Some(rp) => {
+                let p = Path::new(VERIF_DIR).join(rp);
+                match std::fs::read_to_string(&p).ok().and_then(|s| serde_json::from_str::<Case>(&s).ok()) {
+                    Some(case) => match crate::checks::by_id(&case.property) {
+                        Some(o) => {
+                            let r = o.run_case(&case);
+                            let sig = f.signature.clone().or(case.signature.clone()).unwrap_or_default();
+                            r.viols.iter().any(|v| v.class == sig)
+                        }
+                        None => true,
+                    },
+                    None => true,
+                }
+            }
+            None => true,
+        };
+        if reproduces {
+            avoid.extend(f.avoid.iter().cloned());
+        }
+    }
+    if let Ok(extra) = std::env::var("VERIF_AVOID") {
+        avoid.extend(extra.split(',').filter(|a| !a.is_empty()).map(|a| a.to_string()));
+    }
+    avoid.into_iter().collect()
+}
+
+/// Child mode of the abort bisection: run cases lo..hi one after the other.
+pub fn run_case_range(check: &dyn Check, tier: &str, master_seed: u64, lo: usize, hi: usize) {
+    let avoid = active_avoid();
+    for i in lo..hi {
+        let case = check.gen_case(case_seed(master_seed, i), i, tier, &avoid);
+        let _ = check.run_case(&case);
+    }
+}
+
+/// The child running the check died (abort / signal): find the case by bisection over
+/// child processes and report it as a violation with a replay file.
+pub fn locate_abort(id: &str, tier: &str, status: Option<i32>) -> i32 {
+    let Some(check) = crate::checks::by_id(id) else { return 2 };
+    let master_seed: u64 = std::env::var("VERIF_SEED").ok().and_then(|s| s.parse().ok()).unwrap_or(20260921);
+    println!("the check process was aborted (status {status:?}); locating the case in child processes");
+    let n = check.budget(tier);
+    let aborts = |lo: usize, hi: usize| -> bool {
+        let st = crate::child(&["case-range", id, tier, &lo.to_string(), &hi.to_string()]);
+        st != Some(0)
+    };
+    // 16-way search: the chunks of one round run as parallel child processes
+    let (mut lo, mut hi) = (0usize, n);
+    while hi - lo > 1 {
+        let parts = 16.min(hi - lo);
+        let step = (hi - lo).div_ceil(parts);
+        let ranges: Vec<(usize, usize)> = (0..parts).map(|k| (lo + k * step, (lo + (k + 1) * step).min(hi))).filter(|(a, b)| a < b).collect();
+        let results: Vec<bool> = std::thread::scope(|sc| {
+            let hs: Vec<_> = ranges.iter().map(|(a, b)| sc.spawn(|| aborts(*a, *b))).collect();
+            hs.into_iter().map(|h| h.join().unwrap_or(false)).collect()
+        });
+        match results.iter().position(|r| *r) {
+            Some(k) => {
+                lo = ranges[k].0;
+                hi = ranges[k].1;
+            }
+            None => {
+                eprintln!("HARNESS ERROR: the abort did not reproduce when the cases ran in child processes");
+                return 2;
+            }
+        }
+    }
+    let avoid = active_avoid();
+    let case = check.gen_case(case_seed(master_seed, lo), lo, tier, &avoid);
+    let v = Viol {
+        class: "process_abort".into(),
+        detail: format!("executing this case aborts the whole process (child exit status {status:?}): failed allocation, stack overflow or abort inside the system under test"),
+        focus: None,
+        schedule: None,
+    };
+    let p = write_replay(&case, &v, "replays");
+    println!("VIOLATION property={} replay={}", id, p.display());
+    println!("  class=process_abort seed={} case_index={lo}", case.seed);
+    1
+}
+
 /// The whole protocol of one check invocation.
 pub fn run_check(check: &dyn Check, tier: &str, master_seed: u64) -> RunSummary {
     let t0 = Instant::now();
